@@ -556,21 +556,21 @@ func (s *admStub) memberPossibly(a, b int64, except *admSession) bool {
 // ---------------------------------------------------------------- world
 
 type admRec struct {
-	kind        string
-	actor       int
-	call, ret   int64
-	t0, t1      time.Time
-	verCall     int
-	verRet      int
-	lo, hi      int
-	done        bool
-	ok          bool   // join admitted / delete true / Locked() value / Add without error
-	val         bool   // lock: the value set
-	seen        uint16 // join: members that were told about the joiner; clients: result
-	listed      uint16 // join: members the joiner was told about
-	err         string
-	sess        *admSession
-	target      int
+	kind      string
+	actor     int
+	call, ret int64
+	t0, t1    time.Time
+	verCall   int
+	verRet    int
+	lo, hi    int
+	done      bool
+	ok        bool   // join admitted / delete true / Locked() value / Add without error
+	val       bool   // lock: the value set
+	seen      uint16 // join: members that were told about the joiner; clients: result
+	listed    uint16 // join: members the joiner was told about
+	err       string
+	sess      *admSession
+	target    int
 }
 
 type admWorld struct {
